@@ -141,6 +141,10 @@ func coerceValue(ttype Input, value interface{}) interface{} {
 	case *List:
 		var values = []interface{}{}
 		valType := reflect.ValueOf(value)
+		if valType.Kind() == reflect.Ptr {
+			// as isValidInputValue does: a pointer to a slice is that slice
+			valType = valType.Elem()
+		}
 		if valType.Kind() == reflect.Slice {
 			for i := 0; i < valType.Len(); i++ {
 				val := valType.Index(i).Interface()
